@@ -16,6 +16,10 @@ from . import engine as E
 from . import shims
 
 
+# the tree under analysis: /repo unless VERIF_REPO names another checkout (used to evaluate a change in a scratch copy)
+REPO_SRC = os.path.join(os.environ.get('VERIF_REPO', '/repo'), 'src')
+
+
 class Sym:
     """Placeholder for a symbolic integer inside a shape (ISA dictionary leaf, CLI value)."""
 
@@ -304,7 +308,7 @@ class PipeCase:
         for d in self.concrete_predefined(model):
             cmd += ['-D', d]
         with builtins.open(os.path.join(dest, 'cmd.txt'), 'w') as f:
-            f.write('cd ' + dest + ' && PYTHONPATH=/repo/src /venv/bin/python ' + ' '.join(cmd) + '\n')
+            f.write('cd ' + dest + ' && PYTHONPATH=' + REPO_SRC + ' /venv/bin/python ' + ' '.join(cmd) + '\n')
         return cmd
 
     def run_cli(self, model: dict, dest: str = None, timeout=30) -> Outcome:
@@ -314,7 +318,7 @@ class PipeCase:
         try:
             cmd = self.write_concrete(model, dest)
             env = dict(os.environ)
-            env['PYTHONPATH'] = '/repo/src'
+            env['PYTHONPATH'] = REPO_SRC
             env['PYTHONDONTWRITEBYTECODE'] = '1'
             outp = os.path.join(dest, 'out.bin')
             if os.path.exists(outp):
